@@ -38,7 +38,7 @@ ASSUMPTIONS = [
     "that list's scope and is excluded from the canonical-equality comparison",
     "documented refinement: a record containing a relative name never equals one with only absolute "
     "names; ordering is asserted for absolute-name records only",
-    "TTL rule asserted for add(ttl)/update_ttl/union/update forms (documented update_ttl rule)",
+    "TTL rule asserted for add(ttl)/update_ttl/union/update forms (documented update_ttl rule) and for symmetric difference when the other set contributes records to a non-empty set (min of the two TTLs)",
 ]
 
 _MUTABLE = (list, dict, set, bytearray)
@@ -527,6 +527,8 @@ def run_sets(case):
             base = {"ior": "union", "iadd": "union", "iand": "intersection", "isub": "difference",
                     "ixor": "symmetric_difference", "update": "union"}.get(name, name.replace("_update", ""))
             mj = model[j].copy()
+            pre_len, pre_ttl = len(m.d), m.ttl
+            contrib = any(k not in m.d for k in mj.d)
             if singleton and base in ("union", "symmetric_difference"):
                 # adding several records to a singleton set keeps only the newest: model by replay
                 if base == "union":
@@ -567,6 +569,12 @@ def run_sets(case):
                 m.d = res
             if base == "union" and r.ttl != m.ttl and i != j:
                 raise Violation("ttl", f"{where}: ttl {r.ttl}, documented rule gives {m.ttl}", "ttl-union")
+            if base == "symmetric_difference" and i != j and pre_len > 0 and contrib and not singleton:
+                # records of the other set were merged into a non-empty set: the minimum of the two TTLs
+                if r.ttl != min(pre_ttl, mj.ttl):
+                    raise Violation("ttl", f"{where}: symmetric difference of a set with ttl {pre_ttl} and one with ttl {mj.ttl} (which contributes records) has ttl {r.ttl}", "ttl-symdiff")
+                if pre_ttl < mj.ttl:
+                    classes.add("symdiff-ttl-kept-lower")
             if base != "union":
                 m.ttl = r.ttl  # TTL of the other forms is not specified by the statement
         elif name in ("union", "intersection", "difference", "symmetric_difference", "or", "and", "sub", "xor", "plus"):
@@ -600,6 +608,11 @@ def run_sets(case):
                 raise Violation("sets", f"{where}: result {[g.hex() for g in got]} but set theory says {[w.hex() for w in want]}", "functional:" + base)
             if type(out) is not type(r):
                 raise Violation("sets", f"{where}: result type {type(out).__name__} != {type(r).__name__}", "functional-type")
+            if base == "symmetric_difference" and i != j and len(m.d) > 0 and any(k not in m.d for k in model[j].d):
+                if out.ttl != min(r.ttl, other.ttl):
+                    raise Violation("ttl", f"{where}: symmetric difference of a set with ttl {r.ttl} and one with ttl {other.ttl} (which contributes records) has ttl {out.ttl}", "ttl-symdiff-functional")
+                if r.ttl < other.ttl:
+                    classes.add("symdiff-ttl-kept-lower")
             # equality ignores order
             rev = mk()
             for x in reversed(list(out)):
@@ -741,6 +754,19 @@ def set_cases(draw):
         # the same records inserted in opposite orders into two sets: order-sensitive results
         ops = [("add", 0, 0, None), ("add", 0, 1, None), ("add", 0, 2, None),
                ("add", 1, 2, None), ("add", 1, 1, None), ("add", 1, 0, None)] + ops
+    if draw(st.integers(0, 3)) == 0:
+        # TTL-sensitive openings: a set that is a (strict) subset / superset / overlap of another one
+        # with a lower or higher TTL, then one binary operation between them in either direction
+        lo, hi = draw(st.sampled_from([(60, 300), (0, 5), (300, 60), (1, 2147483647)]))
+        shape = draw(st.sampled_from(["subset", "subset", "overlap", "equal"]))
+        pre = [("add", 0, 0, lo), ("add", 1, 0, hi), ("add", 1, 1, hi)]
+        if shape == "overlap":
+            pre.append(("add", 0, 2, lo))
+        elif shape == "equal":
+            pre.append(("add", 0, 1, lo))
+        a, b = draw(st.sampled_from([(0, 1), (0, 1), (1, 0)]))
+        pre.append((draw(st.sampled_from(["symmetric_difference_update", "ixor", "symmetric_difference", "xor", "union", "ior", "intersection_update"])), a, b))
+        ops = pre + ops
     return {
         "type": tname,
         "kind": draw(st.sampled_from(["rdataset", "rdataset", "rrset"])),
@@ -756,6 +782,6 @@ def parts(tier):
              shards={"quick": 8, "thorough": 16}),
         Part("sets", run_sets, strategy=set_cases(), n={"quick": 6000, "thorough": 200000},
              require={"dup": 500, "alias": 500, "intruder": 300, "singleton": 100,
-                      "immutable-mutator-refused": 300, "intruder-refused": 300},
+                      "immutable-mutator-refused": 300, "intruder-refused": 300, "symdiff-ttl-kept-lower": 100},
              shards={"quick": 8, "thorough": 16}),
     ]
